@@ -1,5 +1,5 @@
 (** Property C03 — input selection honours every stated constraint and finds a match if one exists. *)
-From Tx3 Require Import Base Assets Assets_proofs Select Select_proofs.
+From Tx3 Require Import Base Assets Assets_proofs Select Select_proofs Select_complete.
 
 (** constraint soundness, for every store, search space, query, ignore set and every oracle *)
 Theorem C03_constraints : forall st sp q ign o u,
@@ -29,6 +29,24 @@ Theorem C03_many_complete : forall cs t scans,
   NoDup (map u_ref cs) -> (forall u, u ∈ cs -> nonneg (u_assets u)) -> nonneg t -> cs <> [] ->
   (forall k, get0 t k <= get0 (total cs) k) -> pick_many cs t scans <> [].
 Proof. exact pick_many_complete. Qed.
+(** what coin selection is handed is exactly the set of candidates the property describes
+    (address / reference / token match, not yet taken, collateral rule), as long as the search
+    space fits the window; [fill] is the hash-set iteration oracle for the top-up *)
+Theorem C03_candidates_exact : forall st q ign fill sp u,
+  wf_store st -> narrow st q = Ok sp -> fill_ok sp window fill = true ->
+  (length (s_list (sp_inter sp)) + length (take_diff sp) <= window)%nat ->
+  (u ∈ fetched_cands st sp q ign fill <-> spec_candidate st q ign u).
+Proof. exact fetched_iff_candidate. Qed.
+(** end to end for a single-UTxO block: if some candidate covers the requested amount alone, the
+    block is resolved *)
+Theorem C03_single_block_served : forall st q ign o sp u,
+  wf_store st -> q_many q = false ->
+  narrow st q = Ok sp -> fill_ok sp window (o_fill o) = true ->
+  (length (s_list (sp_inter sp)) + length (take_diff sp) <= window)%nat ->
+  order_ok (o_sorted o) (fetched_cands st sp q ign (o_fill o)) = true ->
+  spec_candidate st q ign u -> contains_total (u_assets u) (target_of q) = true ->
+  select st sp q ign o <> [].
+Proof. exact single_block_served. Qed.
 (** the selection window, regenerated constant tie is in gen/Consts.v when present *)
 Theorem C03_window : window = 50%nat.
 Proof. reflexivity. Qed.
@@ -40,3 +58,5 @@ Print Assumptions C03_many_covers.
 Print Assumptions C03_single_complete.
 Print Assumptions C03_many_complete.
 Print Assumptions C03_window.
+Print Assumptions C03_candidates_exact.
+Print Assumptions C03_single_block_served.
